@@ -1490,10 +1490,14 @@ class Parameter(_ParameterBase):
     def _trigger_event(self, attribute, old, new):
         event = Event(what=attribute, name=self.name, obj=None, cls=self.owner,
                       old=old, new=new, type=None)
-        for watcher in self.watchers[attribute]:
-            self.owner.param._call_watcher(watcher, event)
-        if not self.owner.param._BATCH_WATCH:
-            self.owner.param._batch_call_watchers()
+        try:
+            for watcher in self.watchers[attribute]:
+                self.owner.param._call_watcher(watcher, event)
+        finally:
+            # Also when a watcher raised: what queued watchers have queued
+            # so far is announced now, not at some later assignment
+            if not self.owner.param._BATCH_WATCH:
+                self.owner.param._batch_call_watchers()
 
     def __getattribute__(self, key):
         """
@@ -1663,10 +1667,14 @@ class Parameter(_ParameterBase):
                       old=_old, new=val, type=None)
 
         # Copy watchers here since they may be modified inplace during iteration
-        for watcher in sorted(watchers, key=lambda w: w.precedence):
-            obj.param._call_watcher(watcher, event)
-        if not obj.param._BATCH_WATCH:
-            obj.param._batch_call_watchers()
+        try:
+            for watcher in sorted(watchers, key=lambda w: w.precedence):
+                obj.param._call_watcher(watcher, event)
+        finally:
+            # Also when a watcher raised: what queued watchers have queued
+            # so far is announced now, not at some later assignment
+            if not obj.param._BATCH_WATCH:
+                obj.param._batch_call_watchers()
 
     def _validate_value(self, value, allow_None):
         """Validate the parameter value against constraints.
@@ -2899,13 +2907,19 @@ class Parameters:
             self_._events = []
             self_._state_watchers = []
 
-            for watcher in sorted(watchers, key=lambda w: w.precedence):
-                events = [self_._update_event_type(watcher, event_dict[(name, watcher.what)],
-                                                   self_._TRIGGER)
-                          for name in watcher.parameter_names
-                          if (name, watcher.what) in event_dict]
-                with _batch_call_watchers(self_.self_or_cls, enable=watcher.queued, run=False):
-                    self_._execute_watcher(watcher, events)
+            try:
+                for watcher in sorted(watchers, key=lambda w: w.precedence):
+                    events = [self_._update_event_type(watcher, event_dict[(name, watcher.what)],
+                                                       self_._TRIGGER)
+                              for name in watcher.parameter_names
+                              if (name, watcher.what) in event_dict]
+                    with _batch_call_watchers(self_.self_or_cls, enable=watcher.queued, run=False):
+                        self_._execute_watcher(watcher, events)
+            except BaseException:
+                # What queued watchers of this round have queued is still
+                # announced now, not at some later assignment
+                self_._batch_call_watchers()
+                raise
     # Please update the docstring with better description and examples
     # I've (MarcSkovMadsen) not been able to understand this. Its probably because I lack context.
     # Its not mentioned in the documentation.
